@@ -52,6 +52,16 @@ def static_invalid_texts(r: random.Random) -> list[tuple[str, str]]:
     out.append(("too-few-macro-arguments", wrap("    ~m(1);", "macro m($a, $b) {\n    a($a, $b);\n}\n")))
     out.append(("too-few-macro-arguments", wrap("    ~m();", "macro m($a) {\n    a($a);\n}\n")))
     out.append(("too-few-macro-arguments", wrap("    ~o(1);", "macro i($a, $b) {\n    a($a, $b);\n}\nmacro o($a) {\n    ~i($a);\n}\n")))
+    # the same constructs in the body of a macro - called or not: macro bodies are compiled on their own
+    for cls, src in list(out):
+        if src.startswith("def 0 {\n") and "~" not in src:
+            body = src[len("def 0 {\n"):src.rindex("}")]
+            if body.rstrip().endswith("end;"):
+                body = body.rstrip()[:-len("end;")]
+            out.append((cls, "macro bad() {\n" + body.rstrip("\n") + "\n}\ndef 0 {\n    ~bad();\n    end;\n}\n"))
+            if cls not in ("jump-undefined-label", "call-undefined-label"):
+                # (a label is looked up when the macro is expanded: an undefined one in a macro that nobody calls is not found out)
+                out.append((cls, "macro bad() {\n" + body.rstrip("\n") + "\n}\ndef 0 {\n    a();\n    end;\n}\n"))
     return out
 
 
